@@ -194,6 +194,23 @@ Example C08_non_setting_nonvacuous :
   targets (ex_proc true) k_values = true /\ private_name "_arguments" = true /\ private_name "values" = false.
 Proof. repeat split; vm_compute; reflexivity. Qed.
 
+(* has() is sound: whatever it confirms can be read, i.e. the whole path of the key exists — for every tree and key,
+   private and dunder names included (repaired C08-has-none: when a component cannot be resolved the walk ends on None,
+   and has() used to ask hasattr(None, <last component>), which is True for `__class__`, `__eq__`, `__doc__` ...) *)
+Theorem C08_has_confirms_only_readable_paths : forall t k, has t k = Ok true -> exists v, getv t k = Ok v.
+Proof. exact has_confirmed_is_readable. Qed.
+Print Assumptions C08_has_confirms_only_readable_paths.
+
+Example C08_has_sound_nonvacuous :
+  let geo := Node (NObj true) (MCons "__class__" KClass (Leaf (VOpaque "method")) (MCons "row" (KProp true GAny) (Leaf (VInt 3)) MNil)) in
+  let p := Node (NObj true) (MCons "__class__" KClass (Leaf (VOpaque "method"))
+                            (MCons "detector" KInst (Node (NObj true) (MCons "geometry" (KProp false GAny) geo MNil)) MNil)) in
+  has p ["detector"; "geometry"; "__class__"] = Ok true /\ getv p ["detector"; "geometry"; "__class__"] = Ok (VOpaque "method") /\
+  has p ["detector"; "geomtry"; "__class__"] = Ok false /\ has p ["detecto"; "__class__"] = Ok false /\
+  getv p ["detector"; "geomtry"; "__class__"] = Raise AttributeError /\
+  set p ["detector"; "geomtry"; "__class__"] (VInt 1) = Raise AttributeError.
+Proof. repeat split; vm_compute; reflexivity. Qed.
+
 (* ===================================================================================== setter guards *)
 
 (* The range guards of the property setters of Geometry / Characteristics / Environment / APDCharacteristics are
